@@ -251,6 +251,31 @@ class Repo:
             raise AnalysisError(f"anchor class vanished: {relpath}::{name}")
         return c
 
+    def resolve_call(self, m: "Module", call: ast.Call) -> Optional[Func]:
+        """The module-level repository function a call names, through the module's own definitions and its import
+        table (`f(...)`, `mod.f(...)`); None for methods, builtins and anything outside the repository."""
+        d = dotted(call.func)
+        if d is None:
+            return None
+        if "." not in d and d in m.funcs and m.funcs[d].cls is None and m.funcs[d].outer is None:
+            return m.funcs[d]
+        fq = fq_dotted(m, call.func) or ""
+        modname, _, name = fq.rpartition(".")
+        tm = self.by_modname.get(modname)
+        if tm is not None:
+            f = tm.funcs.get(name)
+            if f is not None and f.cls is None and f.outer is None:
+                return f
+            # re-exported through a package __init__
+            if name in tm.imports and tm.imports[name] != fq:
+                modname2, _, name2 = tm.imports[name].rpartition(".")
+                tm2 = self.by_modname.get(modname2)
+                if tm2 is not None:
+                    f = tm2.funcs.get(name2)
+                    if f is not None and f.cls is None and f.outer is None:
+                        return f
+        return None
+
     def all_funcs(self, pkg_only: bool = True) -> Iterator[Func]:
         for rel, m in self.modules.items():
             if pkg_only and not rel.startswith(PKG):
@@ -364,6 +389,18 @@ def call_name(call: ast.Call) -> Optional[str]:
     if isinstance(f, ast.Name):
         return f.id
     return None
+
+
+def fq_dotted(m: "Module", e: ast.AST) -> Optional[str]:
+    """dotted(e) with its head resolved through the module's import table (`np.random.x` -> `numpy.random.x`,
+    `from random import choice as c; c` -> `random.choice`)."""
+    d = dotted(e)
+    if d is None:
+        return None
+    head, _, rest = d.partition(".")
+    if head in m.imports:
+        return m.imports[head] + ("." + rest if rest else "")
+    return d
 
 
 def dotted(e: ast.AST) -> Optional[str]:
